@@ -98,7 +98,7 @@ static void run_execution(const json &x) {
         std::vector<std::thread> th;
         int p = 0;
         for (auto &sz : x["producers"]) { ++p; th.emplace_back(producer, pipe, p, sz.get<std::vector<long long>>(), x.value("lockless", false) && (p % 2 == 0)); }
-        for (auto &t : th) t.join();
+        {   CallGuard cg; for (auto &t : th) t.join(); }        // an append() that never returns is a hang, too
         if (x.contains("sleep_before_cleanup_us")) std::this_thread::sleep_for(std::chrono::microseconds(x["sleep_before_cleanup_us"].get<int>()));
         S().pass("drv.cleanup_call", "C");
         {   CallGuard cg; pipe->cleanup(); }
